@@ -37,6 +37,8 @@ def work(arg):
     from engine import progs, seams
 
     chunk, new_execution, cache, check_valid = arg
+    ne_runs = new_execution if isinstance(new_execution, tuple) else (new_execution, new_execution)  # (first run, second run)
+    new_execution = ne_runs[1]
     wrap_subrun_root()
     viol = []
     n = 0
@@ -54,7 +56,7 @@ def work(arg):
                 before = COUNT["subrun_root"]
                 sr = subrun if check_valid is None else subrun.options(check_valid=check_valid)
                 try:
-                    v = s.run(sr(progs.build(ast), executor="default", new_execution=new_execution, load_modules=["wf.tasks"]), cache=cache)
+                    v = s.run(sr(progs.build(ast), executor="default", new_execution=ne_runs[run_i], load_modules=["wf.tasks"]), cache=cache)
                     out = ("ok", v)
                 except Exception as e:  # noqa: BLE001
                     out = ("err", type(e).__name__, str(e))
@@ -62,8 +64,8 @@ def work(arg):
                 calls.append(COUNT["subrun_root"] - before)
                 seams.close_backend(s.backend)
             n += 1
-            case = {"ast": ast, "new_execution": new_execution, "cache": cache, "check_valid": check_valid}
-            mode = f"new_execution={new_execution}:cache={cache}:check_valid={check_valid}"
+            case = {"ast": ast, "new_execution": list(ne_runs), "cache": cache, "check_valid": check_valid}
+            mode = f"new_execution={ne_runs[0] if ne_runs[0] == ne_runs[1] else ne_runs}:cache={cache}:check_valid={check_valid}"
             for i, out in enumerate(outs):
                 o = progs.outcome_of(out)
                 kinds[o[0]] += 1
@@ -75,7 +77,15 @@ def work(arg):
             if (check_valid == "full" or not cache) and calls[1] != 1 and outs[0][0] == "ok":
                 viol.append((f"subrun-replayed-without-running:{mode}", case,
                              f"{ast!r} {mode}: second execution did not start the sub-scheduler ({calls[1]} runs) although only CSE/ultimate hits are allowed"))
-            if not new_execution and outs[0][0] == "ok":
+            if ne_runs[0] != ne_runs[1] and calls[1] != 1 and outs[0][0] == "ok":
+                viol.append((f"subrun-served-from-the-other-mode:{mode}", case,
+                             f"{ast!r} {mode}: the second execution (new_execution={ne_runs[1]}) did not start the sub-scheduler ({calls[1]} runs): it was answered "
+                             f"from the first execution's subrun, which ran with new_execution={ne_runs[0]}"))
+            if ne_runs[0] != ne_runs[1] and not ne_runs[1] and outs[0][0] == "ok":
+                bad = latest_subrun_has_children(db)
+                if bad:
+                    viol.append((f"sub-jobs-not-under-calling-job:{mode}", case, f"{ast!r} {mode}: {bad}"))
+            if ne_runs == (False, False) and outs[0][0] == "ok":
                 bad = job_tree_violation(db)
                 if bad:
                     viol.append((f"sub-jobs-not-under-calling-job:{mode}", case, f"{ast!r} {mode}: {bad}"))
@@ -85,6 +95,21 @@ def work(arg):
     for sig, c, d in viol:
         best.setdefault(sig, (c, d))
     return {"viol": [(s, c, d) for s, (c, d) in best.items()], "n": n, "kinds": dict(kinds)}
+
+
+def latest_subrun_has_children(db):
+    con = sqlite3.connect(db)
+    try:
+        jobs = con.execute("select j.id, j.parent_id, t.name, j.start_time from job j join task t on t.hash=j.task_hash order by j.start_time, j.id").fetchall()
+    finally:
+        con.close()
+    subs = [j for j in jobs if j[2] == "subrun_root_task"]
+    if not subs:
+        return "no job for the sub-scheduler task is recorded"
+    last = subs[-1][0]
+    if not any(j[1] == last for j in jobs):
+        return "the calling job of the second execution (new_execution=False) has no job of the sub-workflow beneath it"
+    return None
 
 
 def job_tree_violation(db):
@@ -126,7 +151,7 @@ def run(ctx):
     extra = [("call", "add", (("call", "inc", (("c", 1),)), ("call", "fail", (("c", 0),)))), ("seq", (("call", "inc", (("c", 0),)), ("call", "twice", (("c", 1),)))),
              ("catch", ("call", "fail", (("c", 1),)), "ValueError", "recover"), ("list", (("call", "fan", (("c", 0),)), ("call", "mklist", (("c", 1),))))]
     fam = fam + extra
-    configs = [(False, True, None), (True, True, None), (False, False, None), (False, True, "full")]
+    configs = [(False, True, None), (True, True, None), (False, False, None), (False, True, "full"), ((True, False), True, None), ((False, True), True, None)]
     if not ctx.quick:
         configs += [(True, False, None), (True, True, "full")]
     work_items = [(fam[i:i + 6], ne, c, cv) for (ne, c, cv) in configs for i in range(0, len(fam), 6)]
